@@ -381,6 +381,164 @@ theorem parseType_fixed_noCrash (s : Str) : NoCrash (parseType true s) := by
   have := (parseType_known true s x hx).2
   cases this
 
+/-! ### an independent necessary condition for the end-of-input crash: unbalanced parentheses -/
+
+/-- #'(' − #')' -/
+def bal : Str → Int
+  | [] => 0
+  | c :: r => (if c = 40 then 1 else if c = 41 then -1 else 0) + bal r
+
+theorem bal_skipWs (s : Str) : bal (skipWs s) = bal s := by
+  induction s with
+  | nil => rfl
+  | cons c r ih =>
+    unfold skipWs
+    split
+    · rename_i h
+      have : c ≠ 40 ∧ c ≠ 41 := by
+        simp [isWs] at h; omega
+      simp [bal, this.1, this.2, ih]
+    · rfl
+
+theorem bal_takeIdent (s : Str) : bal (takeIdent s).2 = bal s := by
+  induction s with
+  | nil => rfl
+  | cons c r ih =>
+    unfold takeIdent
+    split
+    · rename_i h
+      have : c ≠ 40 ∧ c ≠ 41 := by
+        simp [isIdent] at h; omega
+      simp [bal, this.1, this.2, ih]
+    · rfl
+
+/-- parser results and the parenthesis balance of what they consumed -/
+def BalC (o : Out (Node × Str)) (s : Str) : Prop :=
+  match o with
+  | .ok (_, s') => bal s' = bal s
+  | .fail => True
+  | .crash x => x = .paramsEof → 1 ≤ bal s
+
+def BalL (o : Out (Params × Str)) (s : Str) : Prop :=
+  match o with
+  | .ok (_, s') => bal s' = bal s + 1
+  | .fail => True
+  | .crash x => x = .paramsEof → 0 ≤ bal s
+
+theorem parse_bal : ∀ f : Nat,
+    (∀ s, BalC (parseClass false f s) s) ∧ (∀ s acc, BalL (paramLoop false f s acc) s) := by
+  intro f
+  induction f with
+  | zero =>
+    constructor
+    · intro s; simp [parseClass, BalC]
+    · intro s acc; simp [paramLoop, BalL]
+  | succ f ih =>
+    obtain ⟨ihC, ihL⟩ := ih
+    constructor
+    · intro s
+      unfold parseClass
+      simp only []
+      have e1 : bal (skipWs (takeIdent (skipWs s)).2) = bal s := by
+        rw [bal_skipWs, bal_takeIdent, bal_skipWs]
+      split
+      · simp [BalC]
+      · split
+        · split
+          · simp only [BalC]; rw [e1]
+          · simp [BalC]
+        · rename_i c r heq
+          split
+          · split
+            · simp only [BalC]; rw [e1]
+            · simp [BalC]
+          · rename_i hc
+            have hc' : c = 40 := by simpa using hc
+            have e2 : bal (skipWs r) = bal s - 1 := by
+              rw [bal_skipWs]
+              have : bal (c :: r) = bal s := by rw [← heq]; exact e1
+              simp [bal, hc'] at this; omega
+            have hl := ihL (skipWs r) []
+            split
+            · rename_i params s2 hpl
+              rw [hpl] at hl
+              simp only [BalL] at hl
+              split
+              · simp only [BalC]; omega
+              · simp [BalC]
+            · simp [BalC]
+            · rename_i x hpl
+              rw [hpl] at hl
+              simp only [BalL, BalC] at *
+              intro hx; have := hl hx; omega
+    · intro s acc
+      unfold paramLoop
+      split
+      · simp [BalL, bal]
+      · rename_i c r
+        split
+        · rename_i hc
+          have hc' : c = 41 := by simpa using hc
+          simp [BalL, bal, hc']; omega
+        · rename_i hc
+          have hc41 : c ≠ 41 := by simpa using hc
+          simp only []
+          split
+          · simp [BalL]
+          · have e1 : bal (skipWs (takeIdent (c :: r)).2) = bal (c :: r) := by rw [bal_skipWs, bal_takeIdent]
+            split
+            · rename_i heq
+              rw [heq] at e1
+              simp only [if_false, BalL]
+              intro _; rw [← e1]; simp [bal]
+            · rename_i c2 r2 heq
+              rw [heq] at e1
+              have e3 : bal (if (c2 == 58) = true then skipWs r2 else c :: r) = bal (c :: r) := by
+                split
+                · rename_i h58
+                  have : c2 = 58 := by simpa using h58
+                  rw [bal_skipWs, ← e1]; simp [bal, this]
+                · rfl
+              have hC := ihC (if (c2 == 58) = true then skipWs r2 else c :: r)
+              split
+              · rename_i node s4 hpc
+                rw [hpc] at hC
+                simp only [BalC] at hC
+                have e4 : bal (skipWs s4) = bal (c :: r) := by rw [bal_skipWs, hC, e3]
+                split
+                · rename_i heq5
+                  rw [heq5] at e4
+                  simp only [if_false, BalL]
+                  intro _; rw [← e4]; simp [bal]
+                · rename_i c5 r5 heq5
+                  rw [heq5] at e4
+                  have e6 : bal (if (c5 == 44) = true then skipWs r5 else c5 :: r5) = bal (c :: r) := by
+                    split
+                    · rename_i h44
+                      have : c5 = 44 := by simpa using h44
+                      rw [bal_skipWs, ← e4]; simp [bal, this]
+                    · exact e4
+                  have hL := ihL (if (c5 == 44) = true then skipWs r5 else c5 :: r5)
+                    ((if (c2 == 58) = true then some (takeIdent (c :: r)).1 else none, node) :: acc)
+                  revert hL
+                  generalize paramLoop false f _ _ = o
+                  intro hL
+                  cases o with
+                  | ok a => obtain ⟨ps, s'⟩ := a; simp only [BalL] at *; omega
+                  | fail => simp [BalL]
+                  | crash x => simp only [BalL] at *; intro hx; have := hL hx; omega
+              · simp [BalL]
+              · rename_i x hpc
+                rw [hpc] at hC
+                simp only [BalC, BalL] at *
+                intro hx; have := hC hx; omega
+
+/-- the parser phase of parseType crashes at end of input only on strings with more '(' than ')' -/
+theorem eof_unbalanced (s : Str) (h : parseClass false (s.length + 1) s = .crash .paramsEof) : 1 ≤ bal s := by
+  have := (parse_bal (s.length + 1)).1 s
+  rw [h] at this
+  exact this rfl
+
 /-! ### output size of the fixed apacheToCassandraType -/
 
 theorem replaceAll_len (old new : Str) (k : Nat) (hk : 1 ≤ k) (_hold : 1 ≤ old.length) (h : new.length ≤ k * old.length) :
